@@ -85,6 +85,21 @@ class LexProbe:
                 elif isinstance(n, ast.Constant) and isinstance(
                         n.value, str) and 0 < len(n.value) <= 3:
                     out.append(frozenset(n.value))
+        # character predicates the lexer calls (c.isdigit(), ...): their truth
+        # sets over the code page and ASCII are classes of their own
+        import string as _string
+        universe = sorted(set(self.codepage) | set(_string.printable))
+        for fn in self.mod.functions.values():
+            for n in ast.walk(fn):
+                if isinstance(n, ast.Call) and isinstance(
+                        n.func, ast.Attribute) and n.func.attr in (
+                        "isdigit", "isalpha", "isalnum", "isnumeric",
+                        "isdecimal", "isspace", "isidentifier", "isupper",
+                        "islower", "isprintable", "isascii", "istitle"):
+                    truth = frozenset(c for c in universe
+                                      if getattr(c, n.func.attr)())
+                    if truth:
+                        out.append(truth)
         # module-level dict / str constants (dispatch tables keyed by head)
         for st in self.mod.tree.body:
             if isinstance(st, (ast.Assign, ast.AnnAssign)):
@@ -200,6 +215,32 @@ class LexProbe:
                 cls = self.class_of(h)
                 out |= cls if cls is not ANYSET else {"<other>"}
         return out
+
+    def neutral_prefixes(self):
+        """representatives `a` that are complete tokens on their own: for
+        every representative b, a + b lexes as tokens(a) + tokens(b).  (The
+        heads of literals, digraphs, numbers and names are not: they go on.)"""
+        out = []
+        for a in self.reps:
+            ra = self.run(a)
+            if not isinstance(ra, list):
+                continue
+            if all(isinstance(self.run(b), list)
+                   and self.run(a + b) == ra + self.run(b)
+                   for b in self.reps):
+                out.append(a)
+        return out
+
+    def lexes_as_one_general_after(self, key: str, prefixes):
+        """after every neutral prefix the key is still one GENERAL token"""
+        for a in prefixes:
+            ra = self.run(a)
+            r = self.run(a + key)
+            if not (isinstance(r, list) and r == ra + [("GENERAL", key)]):
+                got = r if isinstance(r, tuple) else ", ".join(
+                    f"{k}({v!r})" for k, v in r)
+                return False, a, got
+        return True, None, None
 
     def lexes_as_one_general(self, key: str):
         r = self.run(key)
